@@ -204,6 +204,14 @@ pub fn stream() -> Vec<(String, String, String)> {
         ("float", "0.1"),
         ("float", "1e-50"),
         ("float", "1e300"),
+        // the float whose shortest digits, read through a double (as rssl's lexer and other compilers do), name its
+        // neighbour 0x15ae43fe: printed with the digits of the double since fix 265a080; its neighbours for contrast
+        ("float", "7.038530691851209e-26f"),
+        ("float", "-7.038530691851209e-26f"),
+        ("float", "7.0385313e-26f"),
+        ("float", "7.03853e-26f"),
+        ("float", "a * 7.038530691851209e-26f"),
+        ("bool", "a == 7.038530691851209e-26f"),
         ("bool", "a < 3.402823466e+38f"),
         ("bool", "a == 1e39f"),
         ("int", "(int)3000000000.0f"),
